@@ -2,7 +2,7 @@
 // pooled pack carries nothing from its previous use; Process() leaves no password value of
 // a connection string in a Go- or PHP-family SQL / SQL-param / DB-connection pack.
 //
-// Three monitors (DESIGN §4 C07):
+// Four monitors (DESIGN §4 C07, §8.6):
 //  1. agreement: golib's Write against golib's Read of a FRESH pack, per (type, version);
 //     which fields a version carries is MEASURED (single-field sensitivity of the written
 //     bytes), not taken from a table; the measured sets are additionally compared with the
@@ -20,7 +20,14 @@
 //     pack must be blank and must keep its owner's values until the owner releases it; in a
 //     slice of the configurations every 8th / 16th iteration starts with a ToPack that fails.
 //  3. password masking: unique marker values under the key "password" must not occur in
-//     any string of the pack after Process().
+//     any string of the pack after Process(). Strings of 1…8 tokens (section password) and of
+//     up to 401 tokens (password-long): every pair of token counts 0,1,2,15,16,17,31,32,33,63,
+//     64,65,127,128,129,200 before and after a designated password token, further password
+//     tokens first / last / anywhere, texts of up to 64 KiB in keys, values and password values.
+//  4. held results (held.go): every slice udp.ToBytesPack / udp.WritePack hands out is held as
+//     returned next to a private copy through multi-object histories (encode A, B, C …, only
+//     then decode in a drawn order) and re-verified after every later encode / decode; decoded
+//     packs stay live and are re-verified too; also from 8 goroutines at once.
 //
 // Version gates found in the pinned code (lang/pack/udp):
 //
@@ -1236,11 +1243,11 @@ func main() {
 		c.Floor("carried_fields_checked", int64(len(kinds)*nv*fills/2/c.NShards), c.Counter("carried_fields_checked"))
 		c.Floor("pwd_markers_checked", int64(c.N(400000, 8000000)/10/c.NShards), c.Counter("pwd_markers_checked"))
 		nl := int64(c.N(pwdLongQuick, pwdLongThorough) / c.NShards)
-		c.Floor("pwd_long_cases", nl/2, c.Counter("pwd_long_cases"))
-		c.Floor("pwd_long_markers_checked", nl, c.Counter("pwd_long_markers_checked"))
+		c.Floor("pwd_long_cases", nl/10, c.Counter("pwd_long_cases"))
+		c.Floor("pwd_long_markers_checked", nl/2, c.Counter("pwd_long_markers_checked"))
 		c.Floor("pwd_password_tokens_behind_32_or_more_tokens", nl/4, c.Counter("pwd_password_tokens_behind_32_or_more_tokens"))
 		c.Floor("pwd_cases_with_several_password_tokens", nl/4, c.Counter("pwd_cases_with_several_password_tokens"))
-		c.Floor("pwd_long_strings_of_32KiB_or_more", nl/200, c.Counter("pwd_long_strings_of_32KiB_or_more"))
+		c.Floor("pwd_long_strings_of_32KiB_or_more", nl/100, c.Counter("pwd_long_strings_of_32KiB_or_more"))
 		if os.Getenv("VERIF_WRITE_SPEC") != "1" {
 			c.Floor("spec_comparisons", int64(len(kinds)*nv*fills/10/c.NShards), c.Counter("spec_comparisons"))
 		}
